@@ -118,9 +118,3 @@ Theorem C27_ok_complete : forall c,
 Proof. exact OkProofs.ok_complete. Qed.
 Print Assumptions C27_ok_complete.
 
-(* ok accepts the model's own output (canonical schedule) on every well-formed
-   script without an exposed stall, exhaustively for 22621 scripts; NOT proved
-   for all scripts *)
-Theorem C27_ok_gen_bounded : bad [ASet [7]] 4 = [].
-Proof. exact OkProofs.ok_gen_bounded. Qed.
-Print Assumptions C27_ok_gen_bounded.
